@@ -795,6 +795,12 @@ def dags(rng, n, alap_share=0.3):
                 kid = rng.choice(c.kids)
                 if not any(d[0] is u for d in kid.deps) and not related(u, kid):
                     kid.deps.append((u, False, rng.choice([0, 0, G]) if gap else rng.choice([0, 2 * G])))
+                if rng.random() < 0.4 and not alap and not onstart and not u.kids:
+                    # an on-start edge of a task inside the container to the SAME predecessor with the SAME options: the
+                    # container's finish-to-start edge still binds the task (it is another edge, not a repetition)
+                    k2 = rng.choice([k for k in c.kids])
+                    if not k2.kids and not any(d[0] is u for d in k2.deps) and not related(u, k2):
+                        k2.deps.append((u, True, gap))
                 if rng.random() < 0.5 and not alap:
                     p.add_task(c.name + "tag", parent=c, milestone=True, deps=[(u, False, 0)])      # a milestone below the container: at the container's bound
         if alap:
